@@ -16,7 +16,8 @@ import random
 META = {
     "technique": "TLC exhaustive on spec/getter/Getter.tla and spec/getter/BitswapFetch.tla (+ defect configurations that must fail) ; behaviours "
                  "enumerated by TLC replayed on the real getters over a mock network with hostile peers (B2) ; "
-                 "observed calls validated by TLC against spec/getter/GetterTrace.tla (B1)",
+                 "observed calls validated by TLC against spec/getter/GetterTrace.tla (B1) ; squares returned by earlier GetEDS "
+                 "calls are compared byte for byte again after every later call (a returned value must not change)",
     "level_text": "Model checking of the request loop / cascade / bitswap population model for all fault sequences "
                   "within the bounds (<= 3 answers per item, <= 2 parallel items, every context outcome), bound to "
                   "the code by replaying every enumerated sequence (thorough) or all sequences <= 2 plus a seeded "
